@@ -212,6 +212,8 @@ def check(ctx):
                               "replay traverses the detached queue between remove() and append()",
                               "replay is not between queue.remove() and queue.append()")
                     check_replay_closure(ctx, prog, R, t, fk)
+        if not replay_ok:
+            replay_ok = check_replay_loop(ctx, prog, R, rb, good_app, fk)
         ctx.check(replay_ok, "C02.c", "%s:replay-present" % fk, R.loc(rb),
                   "detached queue is replayed with an in-order retain", "no in-order replay (VecDeque::retain) of the detached queue found")
 
@@ -240,7 +242,7 @@ def check(ctx):
                 if loops:
                     h, lbody, backs = loops[0]
                     exits = {(x, s) for x in lbody for s in R.succ[x] if s not in lbody}
-                    bad_exits = [(x, s) for (x, s) in exits if not R.dominates(none_p, s) and s != none_p]
+                    bad_exits = [(x, s) for (x, s) in exits if not R.dominates(none_p, s) and s != none_p and not R.is_unreachable_block(s)]
                     ctx.check(not bad_exits, "C02.c", "%s:discard-loop-single-exit" % fk, R.loc(pb),
                               "the discard loop is left only when pop_front() returns None",
                               "the discard loop has an exit other than queue-empty: %s" % ["bb%d->bb%d" % e for e in bad_exits])
@@ -328,8 +330,14 @@ def check(ctx):
     # who may call the runner / the stored callback
     allowed = {ap.path for ap in applies} | {c.path for c in A.replay_closures(prog)}
     callers = prog.callers_of(lambda n: n == R.path)
+    # loop form of the replay: the runner calls itself from inside the position scan of the detached queue (C02.c)
+    loop_replay_sites = set()
+    for (h_, lb_, bk_) in R.loops():
+        for b_, t_, fr_ in R.iter_calls(lb_):
+            if fr_ and mir.fn_name(fr_) == R.path and any(o["ok"] and o["key"].endswith("::replay:index-scan-well-formed") for o in ctx.obligations):
+                loop_replay_sites.add(b_)
     for (cb, b, t, fr) in callers:
-        ctx.check(cb.path in allowed, "C02.d", "who-may-call-runner:%s" % lib.fkey(cb), cb.loc(b),
+        ctx.check(cb.path in allowed or (cb.path == R.path and b in loop_replay_sites), "C02.d", "who-may-call-runner:%s" % lib.fkey(cb), cb.loc(b),
                   "runner called from an apply impl or its own replay", "the runner is called from %s (only Command::apply and the replay may)" % cb.path)
     uses = prog.fn_value_uses(lambda n: n == R.path)
     ctx.check(not uses, "C02.d", "runner-not-used-as-value", "", "runner is never taken as a fn value",
@@ -493,6 +501,165 @@ def check_replay_closure(ctx, prog, R, retain_term, fk):
     ctx.check(okeq, "C02.c", "%s:matches-on-command-identity" % ck, "%s:%d" % (cb.file, cb.line),
               "replay selects elements by comparing their command with the finished command",
               "replay closure does not compare the element's command with the captured command")
+
+
+def check_replay_loop(ctx, prog, R, rb, good_app, fk):
+    """Loop form of the replay: an index scan over the detached queue with in-place removal,
+
+        while pos < q.len() { let e = q[pos]; if e.command == command { runner(e..); q.remove(pos); } else { pos += 1; } }
+
+    It is equivalent to `retain` iff: the loop is left only through its header test `pos < q.len()`; every iteration reads
+    the element at `pos`; every iteration path does exactly one of DROP (`q.remove(pos)`, order preserving, same `pos`) and
+    KEEP (`pos += 1`); nothing else writes `pos` or mutates `q`. The per-element obligations are then the same as for the
+    closure form (same keys). Returns True when such a loop was found (its obligations are recorded either way)."""
+    ck = lib.fkey(R) + "::replay"
+    for (h, lbody, backs) in R.loops():
+        rc = [b for b, t, fr in R.iter_calls(lbody) if fr and mir.fn_name(fr) == R.path]
+        if not rc:
+            continue
+        idx = [(b, t) for b, t, fr in R.iter_calls(lbody) if fr and lib.tail(mir.fn_name(fr), 1) == "index" and "VecDeque" in mir.fn_name(fr)
+               and lib.originates_from_call(R, t["args"][0], rb)]
+        rem = [(b, t) for b, t, fr in R.iter_calls(lbody) if fr and mir.strip_generics(mir.fn_name(fr)).endswith("VecDeque::remove")
+               and lib.originates_from_call(R, t["args"][0], rb)]
+        lens = [(b, t) for b, t, fr in R.iter_calls(lbody) if fr and mir.strip_generics(mir.fn_name(fr)).endswith("VecDeque::len")
+                and lib.originates_from_call(R, t["args"][0], rb)]
+        if len(idx) != 1 or len(rem) != 1 or not lens:
+            continue
+        ctx.touch(R, states=len(lbody))
+        # the position variable: argument of index and of remove
+        def pos_locals(op):
+            out = set()
+            p = op_place(op)
+            seen = set()
+            while p is not None and not p["p"] and p["l"] not in seen:
+                seen.add(p["l"])
+                out.add(p["l"])
+                ds = [d for d in R.defs.get(p["l"], []) if d[0] == "stmt" and "use" in d[3]]
+                p = op_place(ds[0][3]["use"]) if len(ds) == 1 else None
+            return out
+        pi, pr = pos_locals(idx[0][1]["args"][1]), pos_locals(rem[0][1]["args"][1])
+        pos = pi & pr
+        # user variable: the local with more than one definition (initialisation + increment)
+        posv = [l for l in pos if len([d for d in R.defs.get(l, []) if d[0] in ("stmt", "call")]) >= 2]
+        ok_shape = len(posv) == 1
+        incs = []
+        if ok_shape:
+            pv = posv[0]
+            for b, i, st in R.iter_stmts(lbody):
+                if st["k"] == "assign" and not st["place"]["p"] and st["place"]["l"] == pv:
+                    incs.append((b, i, st))
+            # each write of pos inside the loop is `pos + 1`
+            for b, i, st in incs:
+                ok_inc = False
+                for o in origins(R, st["rv"]["use"]) if "use" in st["rv"] else ():
+                    pass
+                rv = st["rv"]
+                src = op_place(rv["use"]) if "use" in rv else None
+                # pos = move (tmp.0) where tmp = AddWithOverflow(pos, 1)  |  pos = Add(pos, 1)
+                cand = [rv]
+                if src is not None:
+                    for d in R.defs.get(src["l"], []):
+                        if d[0] == "stmt":
+                            cand.append(d[3])
+                for c in cand:
+                    if "bin" in c and c["bin"]["op"] in ("Add", "AddWithOverflow", "AddUnchecked"):
+                        l_, r_ = c["bin"]["l"], c["bin"]["r"]
+                        if (op_place(l_) or {}).get("l") in pos_locals({"copy": {"l": pv, "p": []}}) | {pv} and lib.const_val(r_) == 1:
+                            ok_inc = True
+                ok_shape = ok_shape and ok_inc
+        # exits: only from the header, on the `pos < len` test
+        exits = {(x, s_) for x in lbody for s_ in R.succ[x] if s_ not in lbody}
+        hdr_blocks = {h} | {b for b, t in lens}
+        cmp_ok = False
+        for (x, s_) in exits:
+            info = mir.switch_on(R, x)
+            if info and info.get("kind") == "bin" and info["bin"]["op"] in ("Lt", "Gt", "Ne"):
+                cmp_ok = True
+        ok_exit = len({x for x, _ in exits}) == 1 and cmp_ok and all(R.dominates(x, idx[0][0]) for x, _ in exits)
+        ctx.check(ok_shape and ok_exit, "C02.c", "%s:index-scan-well-formed" % ck, R.loc(h),
+                  "replay loop scans the detached queue by position: single exit on the bound test, position only incremented by one",
+                  "the replay loop over the detached queue is not a plain position scan (extra exit, or the position is written other than by +1)")
+        if not (ok_shape and ok_exit):
+            return True
+        drop_b = rem[0][0]
+        keep_b = sorted({b for b, i, st in incs})
+        # exactly one of DROP / KEEP per iteration
+        one = iteration_counts(R, lbody, h, h, [drop_b] + keep_b) == {1}
+        ctx.check(one, "C02.c", "%s:each-element-dropped-xor-kept" % ck, R.loc(h),
+                  "every iteration either removes the element at the position or advances the position, never both or neither",
+                  "an iteration of the replay loop neither removes the scanned element nor advances (or does both): elements would be skipped or visited twice")
+        # per-element obligations (same keys as the closure form)
+        runs_before_keep = any(path_within(R, lbody, r, k, h) for r in rc for k in keep_b)
+        ctx.check(len(rc) == 1 and not path_within(R, lbody, rc[0], rc[0], h, strict=True), "C02.c", "%s:at-most-one-run-per-element" % ck, R.loc(rc[0]),
+                  "replay loop calls the runner at most once per element", "replay loop calls the runner more than once per element")
+        for b in rc:
+            t = R.blocks[b]["term"]
+            ok = all(lib.originates_from_call(R, t["args"][i], idx[0][0], (f,)) for i, f in ((1, ".command"), (2, ".setup"), (3, ".cleanup")))
+            ctx.check(ok, "C02.c", "%s:replays-element-own-fields" % ck, R.loc(b),
+                      "replay passes the element's own command/setup/cleanup", "replay calls the runner with fields that are not the element's own")
+        w = lib.path_between_avoiding(R, [lib.call_target(R, idx[0][0])], [drop_b], rc)
+        ctx.check(w is None, "C02.c", "%s:drop-only-after-run" % ck, R.loc(drop_b),
+                  "element is removed from the queue only after it ran", "replay loop removes a postponed command without running it")
+        ctx.check(not runs_before_keep, "C02.c", "%s:keep-only-if-not-run" % ck, R.loc(keep_b[0]) if keep_b else R.loc(h),
+                  "element is kept only if it did not run", "replay loop keeps a command it has just run (would run twice)")
+        ctx.check(bool(keep_b), "C02.c", "%s:both-outcomes" % ck, R.loc(h), "loop has a drop and a keep outcome", "replay loop lacks a keep outcome")
+        # polarity and identity
+        pol = okeq = False
+        for b, t, fr in R.iter_calls(lbody):
+            if fr and lib.tail(mir.fn_name(fr), 1) in ("eq", "ne") and len(t["args"]) >= 2:
+                o0, o1 = origins(R, t["args"][0]), origins(R, t["args"][1])
+                s_ = {tuple(x[:3]) for x in o0 | o1}
+                if ("call", idx[0][0], ".command") in s_ and any(x[0] == "arg" and x[1] == 2 for x in o0 | o1):
+                    okeq = True
+                    arms = lib.bool_arms(R, b)
+                    if arms:
+                        eq_arm = arms[0][1] if lib.tail(mir.fn_name(fr), 1) == "eq" else arms[0][2]
+                        pol = all(R.dominates(eq_arm, r) for r in rc)
+        ctx.check(pol, "C02.c", "%s:runs-only-equal-commands" % ck, R.loc(h),
+                  "an element is replayed only on the arm where its command equals the finished command",
+                  "the replay runs postponed commands whose target is NOT the system that just finished (they are still busy or unrelated)")
+        ctx.check(okeq, "C02.c", "%s:matches-on-command-identity" % ck, R.loc(h),
+                  "replay selects elements by comparing their command with the finished command",
+                  "replay loop does not compare the element's command with the finished command")
+        ctx.check(R.dominates(lib.call_target(R, rb), h) and any(path_hits(R, h, a) for a in good_app),
+                  "C02.c", "%s:replay-between-detach-and-reattach" % fk, R.loc(h),
+                  "replay traverses the detached queue between remove() and append()", "replay is not between queue.remove() and queue.append()")
+        return True
+    return False
+
+
+def iteration_counts(R, region, start, header, events, sat=3):
+    """set of numbers of `events` blocks passed on the paths of one loop iteration (from `start` back to `header`)"""
+    ev = set(events)
+    out = set()
+    seen = set()
+    st = [(start, 1 if start in ev else 0)]
+    while st:
+        x, n = st.pop()
+        if (x, n) in seen:
+            continue
+        seen.add((x, n))
+        for s_ in R.succ[x]:
+            if s_ == header:
+                out.add(n)
+            elif s_ in region:
+                st.append((s_, min(sat, n + (1 if s_ in ev else 0))))
+    return out
+
+
+def path_within(R, region, a, b, header, strict=False):
+    """a path a ->* b that stays inside `region` and does not pass the loop header (i.e. within one iteration)"""
+    seen = set()
+    st = [s_ for s_ in R.succ[a] if s_ in region and s_ != header]
+    while st:
+        x = st.pop()
+        if x in seen:
+            continue
+        seen.add(x)
+        if x == b:
+            return True
+        st.extend(s_ for s_ in R.succ[x] if s_ in region and s_ != header)
+    return (a == b) and not strict
 
 
 def check_error_neutral(ctx, prog):
